@@ -124,7 +124,7 @@ def routesStr : Option (List (RouteKey × Option Nat)) → String
   | some rs => listStr ((sortRoutes rs).map routeStr)
 
 def viewStr (slot : Option Update) : String :=
-  let peers := match peersTag slot with | some t => toString t | none => "-"
+  let peers := match peersTag slot with | some t => "+".intercalate (t.nodes.map fun (n : NodeAttr) => toString n.host) | none => "-"
   let refresh := listStr ((refreshIds slot).map toString)
   let hints := listStr ((sortHints (hintsOf slot)).map fun p => toString p.1 ++ (if p.2 then "+" else "-"))
   s!"{kind slot} peers={peers} refresh={refresh} hints={hints} routes={routesStr (routesOf slot)} lost=-"
@@ -161,7 +161,7 @@ def slotOp (st : SlotSt) (op : String) : Option (SlotSt × String) :=
         match tag.toNat?, parseRouteEntries rs false with
         | some tag, some es =>
           let routes := mkRoutes (es.filterMap fun e => e.2.map fun p => (e.1, p))
-          let m : Meta := { peers := tag, clientRoutes := some routes }
+          let m : Meta := { peers := Topo.single tag, clientRoutes := some routes }
           if c == 'H' then
             some ({ slot := mergeMetadata st.slot m (some st.nextRefresh), nextRefresh := st.nextRefresh + 1 },
                   s!"r{st.nextRefresh}")
@@ -172,11 +172,11 @@ def slotOp (st : SlotSt) (op : String) : Option (SlotSt × String) :=
     match arg.toNat? with
     | none => none
     | some n =>
-      if c == 'F' then some ({ st with slot := mergeMetadata st.slot { peers := n } none }, "-")
+      if c == 'F' then some ({ st with slot := mergeMetadata st.slot { peers := Topo.single n } none }, "-")
       else if c == 'R' then
-        some ({ slot := mergeMetadata st.slot { peers := n } (some st.nextRefresh), nextRefresh := st.nextRefresh + 1 },
+        some ({ slot := mergeMetadata st.slot { peers := Topo.single n } (some st.nextRefresh), nextRefresh := st.nextRefresh + 1 },
               s!"r{st.nextRefresh}")
-      else if c == 'T' then some ({ st with slot := mergeTopology st.slot n }, "-")
+      else if c == 'T' then some ({ st with slot := mergeTopology st.slot (Topo.single n) }, "-")
       else if c == 'U' then some ({ st with slot := mergeHint st.slot n true }, "-")
       else if c == 'W' then some ({ st with slot := mergeHint st.slot n false }, "-")
       else none
@@ -198,12 +198,44 @@ end Slot
 section Worker
 open ScyllaVerif.MetaUpdate ScyllaVerif.ClusterConsumer ScyllaVerif
 
+/-- What listens at a node address (case ops `L` `Q` `Y` `Z`; nothing = refused at once). -/
+inductive Listener where
+  | closes        -- `L`: accepts and closes at once           → the attempt fails
+  | closesLate    -- `Q`: answers OPTIONS, closes on STARTUP   → the attempt fails
+  | handshakes    -- `Y`: completes the CQL handshake          → the connection is accepted into the pool
+  | mute          -- `Z`: accepts and never answers            → the attempt stays in flight
+  deriving DecidableEq
+
 structure WorkerSt where
   pipe : Pipe
   nextRefresh : Nat := 0
-  /-- `A1`: no host filter - the node of a published topology gets a real pool (nothing listens at its address, or a
-  listener that closes at once: either way the pool's first connection attempt fails). -/
-  accepting : Bool := false
+  listeners : List (Nat × Listener) := []
+  /-- the pools of the published state's enabled nodes: host ↦ (dc, rack, pool). A node object - and with it its pool -
+  is kept as long as the node stays enabled with the same dc and rack (`calculate_new_topology`, state.rs:312-323: an
+  address change alone re-creates the `Node` but inherits the pool). -/
+  pools : List (Nat × Nat × Nat × C19PoolInit.Pool) := []
+  /-- `publications` at the previous catch-up (what `new=` compares with). -/
+  pubAtLastK : Nat := 0
+  answeredAtLastK : Nat := 0
+
+/-- `host.addr.dc.rack,…` or a bare tag. -/
+def parseNodes (s : String) : Option Topo :=
+  match s.toNat? with
+  | some t => some (Topo.single t)
+  | none =>
+    if s == "-" then some ⟨[]⟩ else
+    ((s.splitOn ",").mapM fun (n : String) =>
+      match (n.splitOn ".").mapM String.toNat? with
+      | some [h, a, d, r] => some ({ host := h, addr := a, dc := d, rack := r } : NodeAttr)
+      | _ => none).map Topo.mk
+
+def insertNode (n : NodeView) : List NodeView → List NodeView
+  | [] => [n]
+  | m :: r => if n.attr.host ≤ m.attr.host then n :: m :: r else m :: insertNode n r
+
+def nodesStr (ns : List NodeView) : String :=
+  listStr ((ns.foldr insertNode []).map fun n =>
+    s!"{n.attr.host}.{n.attr.addr}.{n.attr.dc}.{n.attr.rack}.{if n.enabled then 1 else 0}")
 
 /-- What the client-routes subscriber holds after the deliveries so far: a full snapshot replaces, a partial update is
 applied (`replace_client_routes` / `merge_client_routes_update`). -/
@@ -213,93 +245,154 @@ def subscriberRoutes (ds : List Delivery) : List (RouteKey × Nat) :=
     | .replace r => r
     | .mergeUpd upd => routesApply acc upd) []
 
-/-- The consumer takes the slot: `apply_metadata_update`, including its wait on the pools of the new state's nodes
-(one pool, whose first attempt has failed, when the host filter accepts; none otherwise). `none` = parked for good. -/
-def workerTake (st : WorkerSt) (p : Pipe) : Option Pipe :=
-  match p.slot with
-  | none => some p
+/-- The first fill of a brand-new pool towards `addr`, as `Model/C19PoolInit.lean` has it: one attempt whose outcome is
+decided by what listens there. -/
+def newPool (st : WorkerSt) (addr : Nat) : C19PoolInit.Pool :=
+  match st.listeners.lookup addr with
+  | none => C19PoolInit.run {} [.startFilling 1, .connFail]                 -- refused
+  | some .closes => C19PoolInit.run {} [.startFilling 1, .connFail]
+  | some .closesLate => C19PoolInit.run {} [.startFilling 1, .connFail]
+  | some .handshakes => C19PoolInit.run {} [.startFilling 1, .connOkAccept]
+  | some .mute => C19PoolInit.run {} [.startFilling 1]                      -- still in flight
+
+/-- The pools of the state built from topology `t`: kept for an enabled node that stays enabled with the same dc / rack,
+new otherwise. -/
+def poolsFor (st : WorkerSt) (t : Topo) : List (Nat × Nat × Nat × C19PoolInit.Pool) :=
+  t.nodes.filterMap fun n =>
+    if accepts st.pipe.cons.filter n then
+      match st.pools.find? (fun p => p.1 == n.host) with
+      | some (h, d, r, pool) => if d == n.dc && r == n.rack then some (h, d, r, pool) else some (n.host, n.dc, n.rack, newPool st n.addr)
+      | none => some (n.host, n.dc, n.rack, newPool st n.addr)
+    else none
+
+/-- The consumer takes the slot: `apply_metadata_update`, including its wait on the pools of the new state's enabled
+nodes. `none` = parked at `wait_until_all_pools_are_initialized` (a pool is still `Initializing`). -/
+def workerTake (st : WorkerSt) : Option WorkerSt :=
+  match st.pipe.slot with
+  | none => some st
   | some u =>
-    let pools : List C19PoolInit.Pool :=
-      if st.accepting then [C19PoolInit.run {} [.startFilling 1, .connFail]] else []
-    match consumeWaiting p.cons u pools with
-    | some c => some { slot := none, cons := c }
+    let pools := match peersTag (some u) with
+      | some t => poolsFor st t
+      | none => st.pools
+    match consumeWaiting st.pipe.cons u (pools.map fun p => p.2.2.2) with
+    | some c => some { st with pipe := { slot := none, cons := c }, pools := pools }
     | none => none
 
-/-- `K`: the consumer takes the slot; the harness then merges a sentinel DOWN hint for address 0 and the consumer takes
-that, too. Prints what is published. -/
-def workerCatchUp (st : WorkerSt) : WorkerSt × String :=
-  match workerTake st st.pipe with
-  | none => (st, "hang")
-  | some p1 =>
-  match workerTake st (pstep p1 (.merge (.hint 0 false))) with
-  | none => (st, "hang")
-  | some p2 =>
-  let isNew := p2.cons.publications > st.pipe.cons.publications
-  let ok := p2.cons.answered.drop st.pipe.cons.answered.length
+def workerSettle (st : WorkerSt) : Option WorkerSt :=
+  match workerTake st with
+  | none => none
+  | some st1 => workerTake { st1 with pipe := pstep st1.pipe (.merge (.hint 0 false)) }
+
+/-- `K`: the consumer catches up (takes the slot; the harness then merges a sentinel DOWN hint for address 0 and the
+consumer takes that, too). Prints what is published. -/
+def workerCatchUp (st : WorkerSt) : Option WorkerSt × String :=
+  match workerSettle st with
+  | none => (none, "hang")
+  | some st2 =>
+  let p2 := st2.pipe
+  let isNew := p2.cons.publications > st.pubAtLastK
+  let ok := p2.cons.answered.drop st.answeredAtLastK
   let routes :=
     if p2.cons.hasSubscriber then
       routesStr (some ((subscriberRoutes p2.cons.delivered).map fun e => (e.1, some e.2)))
     else "none"
-  ({ st with pipe := p2 },
-   s!"pub={p2.cons.published} new={if isNew then 1 else 0} ok={listStr (ok.map toString)} err=- drop=- routes={routes}")
+  let v := p2.cons.views
+  let pub := if v.allNodes == v.knownNodes && v.ring == v.knownNodes then nodesStr v.knownNodes else "VIEWS-DIFFER"
+  (some { st2 with pubAtLastK := p2.cons.publications, answeredAtLastK := p2.cons.answered.length },
+   s!"pub={pub} new={if isNew then 1 else 0} ok={listStr (ok.map toString)} err=- drop=- routes={routes}")
 
-def workerOp (st : WorkerSt) (idx : Nat) (op : String) : Option (WorkerSt × String) :=
+def workerOp (st : WorkerSt) (op : String) : Option (Option WorkerSt × String) :=
   match splitOp op with
   | none => none
   | some (c, arg) =>
-    let mergeOp (o : Op) : WorkerSt := { st with pipe := pstep st.pipe (.merge o) }
-    if c == 'A' then
-      if idx == 0 && arg == "1" then some (st, "-") else none
-    else if c == 'S' then
-      if idx == (if st.accepting then 1 else 0) && arg == "1" then some (st, "-") else none
-    else if c == 'L' then
+    let mergeOp (o : Op) : Option (Option WorkerSt × String) := some (some { st with pipe := pstep st.pipe (.merge o) }, "-")
+    let listen (k : Listener) : Option (Option WorkerSt × String) :=
       match arg.toNat? with
-      | some _ => some (st, "-")          -- a listener that closes at once: the pool's attempt fails all the same
+      | some a => some (some { st with listeners := (a, k) :: st.listeners }, "-")
       | none => none
-    else if c == 'K' then
+    if c == 'K' then
       if arg != "" then none else some (workerCatchUp st)
+    else if c == 'B' then
+      if arg != "" then none else
+      match workerSettle st with
+      | none => some (none, "hang")
+      | some st' => some (some { st' with pipe := pstep st'.pipe .tablets }, "-")
+    else if c == 'L' then listen .closes
+    else if c == 'Q' then listen .closesLate
+    else if c == 'Y' then listen .handshakes
+    else if c == 'Z' then listen .mute
     else if c == 'C' then
       match parseRouteEntries arg true with
       | none => none
-      | some es => some (mergeOp (.clientRoutes (mkRoutesUpdate es)), "-")
+      | some es => mergeOp (.clientRoutes (mkRoutesUpdate es))
     else if c == 'G' || c == 'H' then
       match arg.splitOn "/" with
       | [tag, rs] =>
-        match tag.toNat?, parseRouteEntries rs false with
-        | some tag, some es =>
+        match parseNodes tag, parseRouteEntries rs false with
+        | some t, some es =>
           let routes := mkRoutes (es.filterMap fun e => e.2.map fun p => (e.1, p))
-          let m : Meta := { peers := tag, clientRoutes := some routes }
+          let m : Meta := { peers := t, clientRoutes := some routes }
           if c == 'H' then
-            some ({ pipe := pstep st.pipe (.merge (.metadata m (some st.nextRefresh))), nextRefresh := st.nextRefresh + 1 },
-                  s!"r{st.nextRefresh}")
-          else some (mergeOp (.metadata m none), "-")
+            some (some { st with pipe := pstep st.pipe (.merge (.metadata m (some st.nextRefresh))),
+                                 nextRefresh := st.nextRefresh + 1 }, s!"r{st.nextRefresh}")
+          else mergeOp (.metadata m none)
         | _, _ => none
       | _ => none
-    else
-    match arg.toNat? with
-    | none => none
-    | some n =>
-      if c == 'F' then some (mergeOp (.metadata { peers := n } none), "-")
-      else if c == 'R' then
-        some ({ pipe := pstep st.pipe (.merge (.metadata { peers := n } (some st.nextRefresh))),
-                nextRefresh := st.nextRefresh + 1 }, s!"r{st.nextRefresh}")
-      else if c == 'T' then some (mergeOp (.topology n), "-")
-      else if c == 'U' then (if n > 65535 then none else some (mergeOp (.hint n true), "-"))
-      else if c == 'W' then (if n > 65535 then none else some (mergeOp (.hint n false), "-"))
-      else none
+    else if c == 'F' || c == 'M' then
+      match parseNodes arg with
+      | some t => mergeOp (.metadata { peers := t } none)
+      | none => none
+    else if c == 'R' || c == 'N' then
+      match parseNodes arg with
+      | some t =>
+        some (some { st with pipe := pstep st.pipe (.merge (.metadata { peers := t } (some st.nextRefresh))),
+                             nextRefresh := st.nextRefresh + 1 }, s!"r{st.nextRefresh}")
+      | none => none
+    else if c == 'T' || c == 'P' then
+      match parseNodes arg with
+      | some t => mergeOp (.topology t)
+      | none => none
+    else if c == 'U' || c == 'W' then
+      match arg.toNat? with
+      | some n => if n > 65535 then none else mergeOp (.hint n (c == 'U'))
+      | none => none
+    else none
+
+/-- Header ops `A1`/`A2`, `S1`, `I<nodes>` (in this order, all optional); returns what is left. -/
+def workerHeader (ops : List String) : Option (Nat × Bool × Topo × Nat × List String) :=
+  let (filter, ops1, n1) := match ops with
+    | "A1" :: r => (1, r, 1)
+    | "A2" :: r => (2, r, 1)
+    | r => (0, r, 0)
+  let (sub, ops2, n2) := match ops1 with
+    | "S1" :: r => (true, r, n1 + 1)
+    | r => (false, r, n1)
+  match ops2 with
+  | o :: r =>
+    if o.startsWith "I" then
+      match parseNodes (o.drop 1).toString with
+      | some t => some (filter, sub, t, n2 + 1, r)
+      | none => none
+    else some (filter, sub, Topo.single 0, n2, ops2)
+  | [] => some (filter, sub, Topo.single 0, n2, [])
 
 def runWorker (ops : List String) : String :=
-  let acc := ops.head? == some "A1"
-  let sub := (if acc then ops.tail.head? else ops.head?) == some "S1"
-  let rec go : List String → Nat → WorkerSt → List String → Option (List String)
-    | [], _, _, out => some out.reverse
-    | op :: rest, i, st, out =>
-      match workerOp st i op with
-      | none => none
-      | some (st', w) => go rest (i + 1) st' (w :: out)
-  match go ops 0 { pipe := { cons := { hasSubscriber := sub, published := 0 } }, accepting := acc } [] with
+  match workerHeader ops with
   | none => "bad-case"
-  | some out => ";".intercalate out
+  | some (filter, sub, t0, nhdr, rest) =>
+    let rec go : List String → WorkerSt → List String → Option (List String)
+      | [], _, out => some out.reverse
+      | op :: more, st, out =>
+        match workerOp st op with
+        | none => none
+        | some (some st', w) => go more st' (w :: out)
+        | some (none, w) => some (w :: out).reverse       -- parked: the case ends here
+    let st0 : WorkerSt := { pipe := { cons := Consumer.start sub filter t0 } }
+    -- the initial state's pools exist already (built by `ClusterState::new`, not waited for)
+    let st0 := { st0 with pools := poolsFor st0 t0 }
+    match go rest st0 (List.replicate nhdr "-") with
+    | none => "bad-case"
+    | some out => ";".intercalate out
 
 end Worker
 
@@ -333,7 +426,7 @@ def producerOp (st : ProducerSt) (op : String) : Option (ProducerSt × String) :
     some (fin (producerSettle { st with flow := RefreshFlow.step st.flow .request }) "-")
   else if op == "o" then
     if st.flow.fetching then
-      some (fin (producerSettle { st with flow := RefreshFlow.step st.flow (.fetchOk { peers := st.tag }), onCc := true,
+      some (fin (producerSettle { st with flow := RefreshFlow.step st.flow (.fetchOk { peers := Topo.single st.tag }), onCc := true,
                                           tag := st.tag + 1 }) "-")
     else some (fin st "-")
   else if op == "e" then
